@@ -616,11 +616,11 @@ fn main() {
             stats.merge(p);
         }
         if stats.get("distinct_interleaving_outcomes") <= stats.get("t_scenarios") {
-            machinery("vacuous concurrent exploration in C13");
+            vacuous("vacuous concurrent exploration in C13");
         }
     }
     if stats.set_len("shapes") < 50 {
-        machinery("vacuous sequential exploration in C13");
+        vacuous("vacuous sequential exploration in C13");
     }
     stats.add("states", stats.set_len("shapes") as u64);
     let mut cov = stats.to_json();
